@@ -141,6 +141,12 @@ class C13Machine(TraceMachine):
             with open(p, "xb") as f:
                 f.write(gen.content_bytes(c))
             self.clock(p, ["d", 0], T0_NS + i * 1_000_000_000)
+        # the index a caller kept from an earlier session (hashes of the initial files)
+        from dvc_data.index.build import build as ibuild
+        from dvc_data.index.save import md5 as imd5
+
+        self.old = imd5(ibuild(self.ws, self.fs), state=self.state)
+        self.state.hits = []
 
     def on_cleanup(self):
         self.state.close()
